@@ -111,6 +111,8 @@ func buildProject(spec [][2]string) *types.Project {
 		pc := baseConf(e[0])
 		if e[1] != "-" {
 			mutate(&pc, e[1])
+			// as the loader does: executable and arguments follow from the command
+			pc.AssignProcessExecutableAndArgs(command.DefaultShellConfig(), "")
 		}
 		procs[e[0]] = pc
 	}
